@@ -7,12 +7,12 @@ namespace Xs.Backends
 open Py Xs.Bind Proofs.C09
 
 theorem assemble_nativeParseTree (wk : List (Str × Str)) (T : XTree) :
-    assemble (nativeParseTree wk T) = some (nativeTree [] (redecl wk T []).1) := by
+    assemble (nativeParseTree wk T) = some (pumpedTree [] (redecl wk T []).1) := by
   unfold nativeParseTree
   rw [(iterwalk_eq_toks wk T []).1, assemble_pump]
 
 theorem parse_nativeTree (e : BEnv) (Γ : Ctx) (cfg : ParserConfig) (c : ClassId) (t : XTree) :
-    parseRoot e Γ cfg c (nativeTree [] t) = parseRoot e Γ cfg c (specTree [] t) :=
+    parseRoot e Γ cfg c (pumpedTree [] t) = parseRoot e Γ cfg c (specTree [] t) :=
   parseRoot_nsRel e Γ cfg c _ _ (nsRel_native_spec e t [] [] (by intro p; simp [topMap, get_nil, inScope]))
 
 /-! ### the element structure does not depend on the declarations -/
